@@ -22,6 +22,9 @@ def items(tier, seed):
         out.append(("altcode-%d" % n, {"n": n}))
         out.append(("surv-%d" % n, {"n": n}))
     out += [("bds05", {}), ("adsb", {})]
+    # history: the same decoder called on an earlier frame that differs in one field (and letter case) first
+    out += [("altcode-112-after", {"n": 112, "after": ["AC"]}), ("altcode-56-after", {"n": 56, "after": ["h"]}),
+            ("surv-56-after", {"n": 56, "after": ["AC"]}), ("adsb-after-alt", {"after": ["ALT"]}), ("adsb-after-tc", {"after": ["TC"]})]
     return out
 
 
@@ -93,11 +96,18 @@ def run_item(item):
             if k == "exc":
                 return H.zand(v == "RuntimeError", z3.Not(ok_df))
             return H.zand(ok_df, base_post(k, v))
+        if prm.get("after"):
+            fr0 = H.sibling(fr, prm["after"])
+            item.declare(fr0)
+            H.decide_after(item, path.split("pyModeS.")[1] + " after an earlier call", fr, fr0,
+                           [(path, lambda: f(fr0.msg))], lambda: f(fr.msg), path, post)
+            return
         H.decide(item, path.split("pyModeS.")[1], lambda: f(fr.msg), lambda c: H.real_call(path, c["msg"]),
                  lambda m: {"msg": fr.concrete(m)}, post)
         item.sat_witness("df-ok", [ok_df])
 
-    elif name in ("bds05", "adsb"):
+    elif name in ("bds05", "adsb") or name.startswith("adsb-after"):
+        name = name.split("-")[0]
         fr = H.Frame([("DF", 5), ("CA", 3), ("ICAO", 24), ("TC", 5), ("SS", 2), ("SAF", 1), ("ALT", 12),
                       ("rest", 36), ("PI", 24)], case="mixed")
         item.declare(fr)
@@ -128,6 +138,12 @@ def run_item(item):
             on_gnss = H.zand(gnss, H.real_close(v, z3.ToReal(gnss_m) * z3.RealVal("328084/100000"), 1e-6))
             on_surf = H.zand(surf, H.int_eq(v, 0)) if name == "adsb" and H.is_int_like(v) else False
             return H.zor(on_baro, on_gnss, on_surf)
+        if prm.get("after"):
+            fr0 = H.sibling(fr, prm["after"])
+            item.declare(fr0)
+            H.decide_after(item, path.split("pyModeS.")[1] + " after an earlier call", fr, fr0,
+                           [(path, lambda: f(fr0.msg))], lambda: f(fr.msg), path, post)
+            return
         H.decide(item, path.split("pyModeS.")[1], lambda: f(fr.msg), lambda c: H.real_call(path, c["msg"]),
                  lambda m: {"msg": fr.concrete(m)}, post)
         item.sat_witness("baro", [baro])
